@@ -317,10 +317,15 @@ func (m *resourceManager) handleReadResource(ctx context.Context, req *JSONRPCRe
 		return newJSONRPCErrorResponse(req.ID, ErrCodeInternal, err.Error(), nil), nil
 	}
 	if contents == nil {
-		// A handler that returns neither contents nor an error: "contents": null would not be
-		// a resources/read result (an empty list is).
-		return newJSONRPCErrorResponse(req.ID, ErrCodeInternal,
-			fmt.Sprintf("resource %s: handler returned no content", uri), nil), nil
+		// A nil slice is Go's empty list: put "contents": [] on the wire, not null.
+		contents = []ResourceContents{}
+	}
+	for _, content := range contents {
+		if content == nil {
+			// As for single-content handlers: a nil item would be "contents": [null].
+			return newJSONRPCErrorResponse(req.ID, ErrCodeInternal,
+				fmt.Sprintf("resource %s: handler returned no content", uri), nil), nil
+		}
 	}
 
 	// Create result
